@@ -37,9 +37,13 @@ def configs(ctx):
     # tied weights at the "always resample" threshold (regression for the relative-ESS round-off finding)
     out.append(dict(move="pg", npts=2, kind="fully-adapted", prop_op=0.1, data_op=0.2, N=3, thr=1.0, alpha=2.5, wiring="library", flat_only=True))
     # three data points (since the enumerator merges equal shuffle outcomes these are seconds each)
+    k3 = 0
     for kind in KINDS:
         for (dop, pop) in ((0.0, 0.0), (0.2, 0.1)):
-            for wiring in ("library", "run"):
+            k3 += 1
+            # quick: one wiring per (proposal, outlier setting) at three points, alternating (both wirings are compared for
+            # every proposal and outlier setting at one and two points above); thorough: both
+            for wiring in ((("library", "run")[k3 % 2],) if ctx.quick else ("library", "run")):
                 n, t = ctx.rng.choice([(2, 0.5), (2, 1.0), (2, 0.0)]) if ctx.quick else (2, 0.5)
                 out.append(dict(move="pg", npts=3, kind=kind, prop_op=pop, data_op=dop, N=n, thr=t, alpha=ctx.rng.choice([0.3, 1.0, 2.5]), wiring=wiring))
                 if not ctx.quick and wiring == "library" and dop == 0.0:
@@ -100,7 +104,7 @@ def run(ctx):
     from . import C01corr
 
     items, desc = C01corr.build_items(ctx)
-    ok, bad, detail = coq.coq_eval_bool_cases(ctx, "corr", "From PV Require Import Model.CsmcCases.\nOpen Scope nat_scope.", items, shard=12)
+    ok, bad, detail = coq.coq_eval_bool_cases(ctx, "corr", "From PV Require Import Model.CsmcCases.\nOpen Scope nat_scope.", items, shard=5, workers=14)
     ctx.extra["coq_corr_cases"] = len(items)
     if not ok:
         ctx.broken_tie("C01 correspondence file did not evaluate", detail)
@@ -110,7 +114,7 @@ def run(ctx):
             ctx.broken[-1]["detail"] = {"failing": len(bad), "first": desc[bad[0]]}
     # ---- the grammar model (state space and retained paths), premise (i) of the assembled theorem
     gitems, gdesc = C01corr.grammar_items(ctx)
-    ok, bad, detail = coq.coq_eval_bool_cases(ctx, "gram", "From PV Require Import Model.GrammarCases Proofs.GrammarPG.\nOpen Scope nat_scope.", gitems, shard=25)
+    ok, bad, detail = coq.coq_eval_bool_cases(ctx, "gram", "From PV Require Import Model.GrammarCases Proofs.GrammarPG.\nOpen Scope nat_scope.", gitems, shard=4, workers=14)
     ctx.extra["coq_grammar_cases"] = len(gitems)
     if not ok:
         ctx.broken_tie("C01 grammar correspondence file did not evaluate", detail)
